@@ -1,9 +1,82 @@
-(* C01 placeholder: theorems land with Proofs/ProtoProofs.v *)
+(* C01 -- save then load reproduces the IR exactly.
+   For every self-contained, staged-resolvable content c (`wf c`), writing it (to_proto / save) and reading the result
+   (from_proto / load) gives back c itself: same nodes, UUIDs, kinds, attribute values, containment tree, payloads,
+   entry points, expressions with all attributes, edges with labels, AuxData type names and bytes.  The loaded content
+   is deep_eq to the original in both directions and saving it again gives the same header and message.
+   Model: Model/Proto.v (the _to_protobuf / _from_protobuf / _decode_protobuf pairs of ir.py, module.py, section.py,
+   byteinterval.py, block.py, symbol.py, symbolicexpression.py, cfg.py, node.py and the 8-byte header of ir.py),
+   Model/DeepEq.v (deep_eq).  Proofs: Proofs/ProtoRoundTrip.v, Proofs/DeepEqProofs.v, glue in Proofs/ProtoProps.v.
+   Trusted: the protobuf wire codec (message <-> bytes) of the protobuf runtime; AuxData values are bytes here, their
+   decoding is C07/C08.  The agreement of the model with the implementation is observed by the differential harness. *)
 From Coq Require Import ZArith List.
-From V Require Import Result Proto.
+From V Require Import Result PyFacts Proto DeepEq.
+From V Require ProtoRoundTrip DeepEqProofs ProtoProps.
 Import ListNotations.
-Theorem C01_empty_ir_roundtrip :
-  let c := {| cr_uuid := 7; cr_version := PyFacts.py_protobuf_version; cr_modules := []; cr_edges := []; cr_aux := [] |} in
-  wf c = true /\ load (fst (save c)) (snd (save c)) = Ok c.
+Open Scope Z_scope.
+
+(* writer then reader is the identity on the domain *)
+Theorem C01_load_save : forall c, wf c = true -> from_proto (to_proto c) = Ok c.
+Proof. exact ProtoRoundTrip.load_save. Qed.
+
+(* the same through the file header *)
+Theorem C01_file_roundtrip : forall c, wf c = true -> load (fst (save c)) (snd (save c)) = Ok c.
+Proof. exact ProtoRoundTrip.file_roundtrip. Qed.
+
+(* saving the loaded IR again yields the same file content *)
+Theorem C01_resave_same : forall c c', wf c = true -> load (fst (save c)) (snd (save c)) = Ok c' -> save c' = save c.
+Proof. exact ProtoRoundTrip.resave_same. Qed.
+
+(* the header save writes passes the header check of load and leaves exactly the message bytes *)
+Theorem C01_header_accepted : forall rest, check_header (header ++ rest) = Ok rest.
+Proof. exact ProtoRoundTrip.header_accepted. Qed.
+
+(* original and loaded IR are deep_eq in both directions (aux_keys_ok: AuxData tables are dicts, no key twice) *)
+Theorem C01_deep_eq_both_ways : forall c c', wf c = true -> DeepEqProofs.aux_keys_ok c = true ->
+  load (fst (save c)) (snd (save c)) = Ok c' -> ir_deq c c' = true /\ ir_deq c' c = true.
+Proof. exact ProtoProps.deep_eq_both_ways. Qed.
+
+(* UUIDs survive the 16-byte big-endian representation *)
+Theorem C01_uuid_roundtrip : forall u, 0 <= u < 2 ^ 128 -> uuid_of_bytes (bytes_of_uuid u) = Ok u.
+Proof. exact ProtoRoundTrip.uuid_roundtrip. Qed.
+
+(* Recorded finding (boundary of the domain).  `wf` demands that a module's entry point names a code block of the SAME
+   or of an EARLIER module of the IR, and likewise that symbol referents name blocks/proxies and expression operands name
+   symbols of the same or an earlier module (module_ok), because the reader resolves these references while it decodes
+   the module.  An IR that the API lets one build with the first module's entry point set to a code block of the second
+   module satisfies every clause of wf except that staging (wf_entry_unstaged = wf with all entry points erased, plus
+   every entry point names a code block of some module of the IR), is written without complaint, and is then REJECTED
+   on load with DeserializationError. *)
+Theorem C01_entry_point_in_later_module_refuted :
+  exists c, ProtoProps.wf_entry_unstaged c = true /\ wf c = false /\ from_proto (to_proto c) = Err EDeser.
+Proof. exact ProtoProps.entry_point_in_later_module_refuted. Qed.
+
+(* wf_entry_unstaged drops nothing else: it is implied by wf *)
+Theorem C01_unstaged_weaker_than_wf : forall c, wf c = true -> ProtoProps.wf_entry_unstaged c = true.
+Proof. exact ProtoProps.wf_wf_entry_unstaged. Qed.
+
+(* non-vacuity: two modules, code/data/proxy blocks, a zero-sized block with the largest UUID, all three symbol payloads
+   (referent, value 0, none), a cross-module referent, both expression kinds with known attributes, address Some 0 and
+   None, an empty name, parallel edges with label None and the all-false label, AuxData *)
+Example C01_example : wf ProtoRoundTrip.ex_ir = true
+  /\ load (fst (save ProtoRoundTrip.ex_ir)) (snd (save ProtoRoundTrip.ex_ir)) = Ok ProtoRoundTrip.ex_ir
+  /\ DeepEqProofs.aux_keys_ok ProtoRoundTrip.ex_ir = true
+  /\ ir_deq ProtoRoundTrip.ex_ir ProtoRoundTrip.ex_ir = true.
+Proof. vm_compute. repeat split; reflexivity. Qed.
+
+(* an entry point in an earlier module is inside the domain *)
+Example C01_example_entry_earlier :
+  wf ProtoProps.ex_entry_earlier = true /\ from_proto (to_proto ProtoProps.ex_entry_earlier) = Ok ProtoProps.ex_entry_earlier.
+Proof. exact ProtoProps.entry_point_in_earlier_module_ok. Qed.
+
+Example C01_example_empty : wf ProtoRoundTrip.ex_empty = true
+  /\ load (fst (save ProtoRoundTrip.ex_empty)) (snd (save ProtoRoundTrip.ex_empty)) = Ok ProtoRoundTrip.ex_empty.
 Proof. vm_compute. split; reflexivity. Qed.
-Print Assumptions C01_empty_ir_roundtrip.
+
+Print Assumptions C01_load_save.
+Print Assumptions C01_file_roundtrip.
+Print Assumptions C01_resave_same.
+Print Assumptions C01_header_accepted.
+Print Assumptions C01_deep_eq_both_ways.
+Print Assumptions C01_uuid_roundtrip.
+Print Assumptions C01_entry_point_in_later_module_refuted.
+Print Assumptions C01_unstaged_weaker_than_wf.
